@@ -102,15 +102,16 @@ def run(replay=None):
     # emission run: every NAMED deviation of the machine is excused, so that TLC enumerates the whole scenario space
     if t == "quick":
         model = (2, [1, 2], [1, 2], [3], [2])
-        nconc = 3
+        nconc = 2
     else:
         model = (3, [1, 2], [1, 2], [1, 3], [2])
-        nconc = 8
+        nconc = 5
     # the machine keeps exactly the switchable deviations that still have an open finding; the mass-fraction one has no
     # known repair and is always in the machine.  The emission run excuses whatever the machine contains.
     enabled = set(known) | {"mass_fraction_mode"}
     r = C.run_tlc(wd, "Matter", cfg(*model, True, enabled, known))
     states, trans = r.distinct, r.generated
+    tlc_wall = r.wall
     if r.violated:
         V.notes.append("TLC: Sound violated on the rational model: " + r.cex[:800])
     # design-level run with only the OPEN findings excused: a deviation of the machine that no open finding covers is a
@@ -173,7 +174,7 @@ def run(replay=None):
                      "obligations": [o["name"] for o in c[0]["obl"]][:10]} for c in cases[40:42] + cases[-2:]],
         "exhaustive": False,
         "scenario_kinds": kinds,
-        "tlc_sound": "ok" if not r.violated else "counterexample",
+        "tlc_sound": "ok" if not r.violated else "counterexample", "tlc_wall_s": round(tlc_wall, 1),
         "tlc_mutants_noticed": MUTANTS,
         "tlc_sensitivity_counterexample_without_excuses": sens,
         "tlc_counterexample_with_open_findings_only": design_cex,
